@@ -30,7 +30,9 @@ import NdnGen.C06
              | t (turn) | s1 (head task only) | r:<k> (receive step of task k raises)
         → `ok <p>/<q>,… ; <processed pkts> ; <queued pkts> ; <status> ; <running 0|1> ; <errors k,k,…|.> ; <cleanup n|.>`
         p/q after each event = packets whose receive step was entered / tasks still queued; cleanup = number of
-        packets received when `_clean_up` ran (the black box here counts calls) -/
+        packets received when `_clean_up` ran (the black box here counts calls)
+    `C06 utasks <ev> <ev> …`         the same for the UDP face: ev ::= d:<hex> (datagram) | lost | sd | t | s1 | r:<k>
+        → as for `tasks`, then ` ; <cls,cls,…|.>` = exceptions that left datagram_received -/
 namespace Ndn.Drv.C06
 open Ndn Ndn.Recv Ndn.Framing
 
@@ -183,8 +185,33 @@ def tasks (toks : List String) : String :=
       ++ " ; " ++ (if fin.errors.isEmpty then "." else ",".intercalate (fin.errors.map toString))
       ++ " ; " ++ (match fin.app.2 with | [] => "." | n :: _ => toString n)
 
+def parseUEv (s : String) : Option FaceTasks.Udp.Ev :=
+  if s == "sd" then some .shutdown
+  else if s == "t" then some .turn
+  else if s == "s1" then some .step1
+  else if s == "lost" then some .lost
+  else if s.startsWith "d:" then (fromHex (s.drop 2).toString).map .dgram
+  else if s.startsWith "r:" then (s.drop 2).toString.toNat?.map .raise
+  else none
+
+def utasks (toks : List String) : String :=
+  match toks.mapM parseUEv with
+  | none => "bad-op"
+  | some evs =>
+    let caught := Gen.C06.udpCaught
+    let u0 := FaceTasks.Udp.init ((0, []) : Nat × List Nat)
+    let tr := FaceTasks.Udp.traceFrom caught taskHooks u0 evs
+    let fin := FaceTasks.Udp.runFrom caught taskHooks u0 evs
+    "ok " ++ (if tr.isEmpty then "." else ",".intercalate (tr.map fun u => toString u.st.processed.length ++ "/" ++ toString u.st.queue.length))
+      ++ " ; " ++ showPkts fin.st.processed ++ " ; " ++ showPkts fin.st.queue ++ " ; " ++ showStatus fin.st.face.status
+      ++ " ; " ++ (if fin.st.running then "1" else "0")
+      ++ " ; " ++ (if fin.st.errors.isEmpty then "." else ",".intercalate (fin.st.errors.map toString))
+      ++ " ; " ++ (match fin.st.app.2 with | [] => "." | n :: _ => toString n)
+      ++ " ; " ++ (if fin.cbErrors.isEmpty then "." else ",".intercalate (fin.cbErrors.map (·.name)))
+
 def handle (args : List String) : String :=
   match args with
+  | "utasks" :: toks => utasks toks
   | "tasks" :: toks => tasks toks
   | ["chunks", spec] => chunked spec
   | ["frames", h] =>
